@@ -85,7 +85,7 @@ func genLocal(r *sim.Rand) string {
 	}
 	s := b.String()
 	if kind == 5 {
-		s = sim.Pick(r, []string{"a b", "a@b", "<x>", "x> SIZE=1", "x@y> BODY=8BITMIME <z", ".lead", "trail.", "a\"b", "a\\b", "rcpt,other", "a;b", "a:b", " lead", "trail ", "user+tag", "\"", "\\"})
+		s = sim.Pick(r, []string{"a b", "a@b", "<x>", "x> SIZE=1", "x@y> BODY=8BITMIME <z", ".lead", "trail.", "a\"b", "a\\b", "rcpt,other", "a;b", "a:b", " lead", "trail ", "user+tag", "\"", "\\", "sales%emea", "100%", "%s", "a%d%v"})
 	}
 	return s
 }
